@@ -101,7 +101,10 @@ def args_state(b):
                        fp(np.asarray(c.ub))))
         else:
             cs.append(("nl", fp(np.asarray(c.lb)), fp(np.asarray(c.ub)),
-                       id(c.fun)))
+                       id(c.fun), tuple(
+                           (k, id(v) if callable(v) else fp(v))
+                           for k, v in sorted(vars(c).items())
+                           if k not in ("fun", "lb", "ub"))))
     items["constraints"] = tuple(cs)
     items["n_constraints"] = len(cons)
     return items
